@@ -112,13 +112,52 @@ Qed.
 (* ---------- abstraction and invariant ---------- *)
 Definition toks (s : store) (b : positive) : list positive := b_toks (bget (s_heap s) b).
 Definition abs (s : store) : list positive := flat_map (toks s) (s_blocks s).
-Definition hnd (s : store) (t : positive) := t_handle (tget (s_toks s) t).
+(* the raw store_handle of a token, and the handle as this store sees it (_check_store_handle(token, self)):
+   a token without a handle (free) and a token of another store (foreign) both have no place here *)
+Definition raw (s : store) (t : positive) := t_handle (tget (s_toks s) t).
+Definition hnd (s : store) (t : positive) : option (positive * Z) :=
+  match raw s t with
+  | Some (sid, b, j) => if Pos.eqb sid (s_id s) then Some (b, j) else None
+  | None => None
+  end.
+Definition free (s : store) (t : positive) : Prop := raw s t = None.
+Definition foreign (s : store) (t : positive) : Prop := exists sid b j, raw s t = Some (sid, b, j) /\ sid <> s_id s.
 Definition txt (s : store) (t : positive) : str := t_text (tget (s_toks s) t).
 Definition bsz (s : store) (b : positive) := b_size (bget (s_heap s) b).
 Definition blnl (s : store) (b : positive) := b_lnl (bget (s_heap s) b).
 Definition bidx (s : store) (b : positive) := b_index (bget (s_heap s) b).
 
 Lemma abs_all_tokens s : all_tokens s = abs s. Proof. reflexivity. Qed.
+
+Lemma check_handle_hnd s t : check_handle s t = match hnd s t with Some h => Ok h | None => Err ValueError end.
+Proof.
+  unfold check_handle, hnd, raw. destruct (t_handle (tget (s_toks s) t)) as [[[sid b] j]|]; [|reflexivity].
+  destruct (Pos.eqb sid (s_id s)); reflexivity.
+Qed.
+Lemma hnd_raw s t b j : hnd s t = Some (b, j) <-> raw s t = Some (s_id s, b, j).
+Proof.
+  unfold hnd. destruct (raw s t) as [[[sid b'] j']|]; [|split; discriminate].
+  destruct (Pos.eqb_spec sid (s_id s)) as [E|N].
+  - subst sid. split; intro H; injection H as <- <-; reflexivity.
+  - split; intro H; [discriminate|]. injection H as E _ _. contradiction.
+Qed.
+Lemma hnd_of_raw s t b j : raw s t = Some (s_id s, b, j) -> hnd s t = Some (b, j).
+Proof. apply hnd_raw. Qed.
+Lemma hnd_ext s s' t : s_id s' = s_id s -> raw s' t = raw s t -> hnd s' t = hnd s t.
+Proof. intros E R. unfold hnd. rewrite E, R. reflexivity. Qed.
+Lemma hnd_ext_tget s s' t : s_id s' = s_id s -> tget (s_toks s') t = tget (s_toks s) t -> hnd s' t = hnd s t.
+Proof. intros E R. apply hnd_ext; [exact E|]. unfold raw. rewrite R. reflexivity. Qed.
+Lemma free_hnd s t : free s t -> hnd s t = None.
+Proof. unfold free, hnd. intros ->. reflexivity. Qed.
+Lemma foreign_hnd s t : foreign s t -> hnd s t = None.
+Proof.
+  intros (sid & b & j & R & N). unfold hnd. rewrite R. destruct (Pos.eqb_spec sid (s_id s)); [contradiction|reflexivity].
+Qed.
+Lemma hnd_none_cases s t : hnd s t = None -> free s t \/ foreign s t.
+Proof.
+  unfold hnd, free, foreign. destruct (raw s t) as [[[sid b] j]|]; [|auto].
+  destruct (Pos.eqb_spec sid (s_id s)); [discriminate|]. intros _. right. exists sid, b, j. auto.
+Qed.
 
 (* a block whose tokens point back at it and whose caches are what a fresh scan computes *)
 Definition blk_ok (s : store) (b : positive) : Prop :=
@@ -207,6 +246,8 @@ Qed.
 Definition ubi := update_block_indexes.
 Lemma ubi_blocks s i : s_blocks (update_block_indexes s i) = s_blocks s.
 Proof. unfold update_block_indexes. destruct (i <? 0); reflexivity. Qed.
+Lemma ubi_sid s i : s_id (update_block_indexes s i) = s_id s.
+Proof. unfold update_block_indexes. destruct (i <? 0); reflexivity. Qed.
 Lemma ubi_toksmap s i : s_toks (update_block_indexes s i) = s_toks s.
 Proof. unfold update_block_indexes. destruct (i <? 0); reflexivity. Qed.
 Lemma ubi_next s i : s_next (update_block_indexes s i) = s_next s.
@@ -220,7 +261,7 @@ Proof. unfold bsz, update_block_indexes. destruct (i <? 0); cbn; apply set_index
 Lemma ubi_blnl s i b : blnl (update_block_indexes s i) b = blnl s b.
 Proof. unfold blnl, update_block_indexes. destruct (i <? 0); cbn; apply set_indexes_fields. Qed.
 Lemma ubi_hnd s i t : hnd (update_block_indexes s i) t = hnd s t.
-Proof. unfold hnd. rewrite ubi_toksmap. reflexivity. Qed.
+Proof. unfold hnd, raw. rewrite ubi_toksmap, ubi_sid. reflexivity. Qed.
 
 Lemma ubi_idx s i : NoDup (s_blocks s) ->
   (forall k b, (k < i)%nat -> nth_error (s_blocks s) k = Some b -> bidx s b = Z.of_nat k) ->
@@ -245,7 +286,9 @@ Lemma rebuild_next s b : s_next (rebuild s b) = s_next s.
 Proof. unfold rebuild. destruct (sizes_scan _ _ _ _ _). reflexivity. Qed.
 Lemma rebuild_len s b : s_len (rebuild s b) = s_len s.
 Proof. unfold rebuild. destruct (sizes_scan _ _ _ _ _). reflexivity. Qed.
-Lemma rebuild_toksmap s b : s_toks (rebuild s b) = rehandle (s_toks s) b 0 (toks s b).
+Lemma rebuild_sid s b : s_id (rebuild s b) = s_id s.
+Proof. unfold rebuild. destruct (sizes_scan _ _ _ _ _). reflexivity. Qed.
+Lemma rebuild_toksmap s b : s_toks (rebuild s b) = rehandle (s_toks s) (s_id s) b 0 (toks s b).
 Proof. unfold rebuild. destruct (sizes_scan _ _ _ _ _). reflexivity. Qed.
 Lemma rebuild_heap_other s b b' : b' <> b -> bget (s_heap (rebuild s b)) b' = bget (s_heap s) b'.
 Proof. intro. unfold rebuild. destruct (sizes_scan _ _ _ _ _). cbn. apply bget_add_other; assumption. Qed.
@@ -270,12 +313,14 @@ Proof. unfold tsz. rewrite rebuild_toksmap. apply rehandle_size. Qed.
 Lemma rebuild_txt s b t : txt (rebuild s b) t = txt s t.
 Proof. unfold txt. rewrite rebuild_toksmap. apply rehandle_text. Qed.
 Lemma rebuild_hnd_other s b t : ~ In t (toks s b) -> hnd (rebuild s b) t = hnd s t.
-Proof. intro. unfold hnd. rewrite rebuild_toksmap, rehandle_other by assumption. reflexivity. Qed.
+Proof. intro. apply hnd_ext_tget; [apply rebuild_sid|]. rewrite rebuild_toksmap, rehandle_other by assumption. reflexivity. Qed.
 Lemma rebuild_tget_other s b t : ~ In t (toks s b) -> tget (s_toks (rebuild s b)) t = tget (s_toks s) t.
 Proof. intro. rewrite rebuild_toksmap, rehandle_other by assumption. reflexivity. Qed.
 Lemma rebuild_hnd_in s b j t : NoDup (toks s b) -> nth_error (toks s b) j = Some t ->
   hnd (rebuild s b) t = Some (b, Z.of_nat j).
-Proof. intros. unfold hnd. rewrite rebuild_toksmap. erewrite rehandle_in by eassumption. f_equal. Qed.
+Proof.
+  intros. apply hnd_of_raw. unfold raw. rewrite rebuild_toksmap, rebuild_sid. erewrite rehandle_in by eassumption. reflexivity.
+Qed.
 
 Lemma rebuild_blk_ok s b : NoDup (toks s b) -> blk_ok (rebuild s b) b.
 Proof.
@@ -298,7 +343,7 @@ Qed.
 (* new_block *)
 Lemma new_block_spec s i ts s' b : new_block s i ts = (s', b) ->
   b = s_next s /\ s_next s' = Pos.succ (s_next s) /\ s_blocks s' = s_blocks s /\ s_len s' = s_len s /\
-  s_toks s' = rehandle (s_toks s) b 0 ts /\
+  s_toks s' = rehandle (s_toks s) (s_id s) b 0 ts /\
   (forall b', b' <> b -> bget (s_heap s') b' = bget (s_heap s) b') /\
   toks s' b = ts /\ bidx s' b = i /\
   sizes_scan (s_toks s') 0 ts pos0 (-1) = (bsz s' b, blnl s' b).
@@ -308,3 +353,6 @@ Proof.
   - intros b' N. apply bget_add_other; assumption.
   - rewrite scan_ext with (tk := s_toks s) by (intros; apply rehandle_size). assumption.
 Qed.
+
+Lemma new_block_sid s i ts s' b : new_block s i ts = (s', b) -> s_id s' = s_id s.
+Proof. unfold new_block. destruct (sizes_scan _ _ _ _ _). intro H. injection H as <- _. reflexivity. Qed.
